@@ -47,7 +47,7 @@ func c13Bases() []c13Base {
 		r.SetRef("refs/heads/main", tip)
 		r.SetRef("refs/tags/ta", ta)
 		r.Head = "ref: refs/heads/main"
-		out = append(out, c13Base{r, map[string]mrepo.ID{"c0": c0, "c1": c1, "tip": tip, "t1": t1, "sub": sub, "blobB": lv.BlobB, "ta": ta,
+		out = append(out, c13Base{r, map[string]mrepo.ID{"c0": c0, "c1": c1, "tip": tip, "t1": t1, "sub": sub, "blobB": lv.BlobB, "blobA": lv.BlobA, "t0": t0, "ta": ta,
 			"bigBlob": bigBlob, "bigTree": bigTree, "orphan": orphan, "otherTag": otherTag}})
 	}
 	return out
@@ -87,7 +87,10 @@ func c13Variants(b c13Base, tier string) []c13Variant {
 		}
 	}
 	for _, rp := range [][3]string{{"commit other parents+tree", "c1", "orphan"}, {"commit tip", "tip", "orphan"}, {"tree bigger", "t1", "bigTree"},
-		{"subtree", "sub", "bigTree"}, {"blob bigger", "blobB", "bigBlob"}, {"tag other", "ta", "otherTag"}} {
+		{"subtree", "sub", "bigTree"}, {"blob bigger", "blobB", "bigBlob"}, {"tag other", "ta", "otherTag"},
+		// replacements that are reachable in their own right (refs/replace/* then
+		// names an object the walk meets a second time)
+		{"blob by a reachable blob", "blobB", "blobA"}, {"tree by a reachable tree", "t1", "t0"}, {"commit by its ancestor", "c1", "c0"}} {
 		vs = append(vs, c13Variant{name: "replace " + rp[0], replace: [][2]mrepo.ID{{id[rp[1]], id[rp[2]]}}})
 		vs = append(vs, c13Variant{name: "replace " + rp[0] + " +GIT_NO_REPLACE_OBJECTS", replace: [][2]mrepo.ID{{id[rp[1]], id[rp[2]]}}, noRepl: true})
 	}
@@ -362,6 +365,6 @@ func c13Case(sh *explore.Shard, bi int, b c13Base, v c13Variant, modes []c13Mode
 
 func init() {
 	Registry["C13"] = &Check{Level: "exploration", Worker: c13Worker, QuickBudget: 80 * time.Second, ThoroughBudget: 10 * time.Minute,
-		Rule:        "real binary + real git: 2 base repositories x {plain; every single replacement of a commit, tip commit, tree, subtree, blob, tag by an otherwise unreachable bigger/other object, with and without GIT_NO_REPLACE_OBJECTS in the caller's environment; every single graft (add a parent, drop all parents, redirect, give the root a parent) in .git/info/grafts and in a file named by GIT_GRAFT_FILE in the caller's environment; a shallow marker; a per-worktree reference (refs/worktree/only) in the linked worktree, which only runs addressed through that worktree must see; thorough additionally replaces every reachable object in turn and grafts every commit in turn} x 9 addressing modes (top, subdirectory, inside .git, bare copy, linked worktree, GIT_DIR absolute from elsewhere, GIT_DIR relative, git -C <dir> sizer, git --git-dir=<d> sizer) x {JSON, verbose table}: stdout byte-identical across modes; numbers equal the oracle on the objects actually stored (refs/replace/* counting as ordinary references); shallow refused cleanly in every mode; plus, through fakegit's log, every git command of a run carries --no-replace-objects, GIT_GRAFT_FILE=/dev/null and the resolved GIT_DIR even when the caller's environment sets other values. non-trivial = every variant",
+		Rule:        "real binary + real git: 2 base repositories x {plain; every single replacement of a commit, tip commit, tree, subtree, blob, tag by an otherwise unreachable bigger/other object and by an object that is reachable in its own right, with and without GIT_NO_REPLACE_OBJECTS in the caller's environment; every single graft (add a parent, drop all parents, redirect, give the root a parent) in .git/info/grafts and in a file named by GIT_GRAFT_FILE in the caller's environment; a shallow marker; a per-worktree reference (refs/worktree/only) in the linked worktree, which only runs addressed through that worktree must see; thorough additionally replaces every reachable object in turn and grafts every commit in turn} x 9 addressing modes (top, subdirectory, inside .git, bare copy, linked worktree, GIT_DIR absolute from elsewhere, GIT_DIR relative, git -C <dir> sizer, git --git-dir=<d> sizer) x {JSON, verbose table}: stdout byte-identical across modes; numbers equal the oracle on the objects actually stored (refs/replace/* counting as ordinary references); shallow refused cleanly in every mode; plus, through fakegit's log, every git command of a run carries --no-replace-objects, GIT_GRAFT_FILE=/dev/null and the resolved GIT_DIR even when the caller's environment sets other values. non-trivial = every variant",
 		Assumptions: []string{"git 2.39.5; the linked worktree is created with git worktree add (detached at the root commit)"}}
 }
